@@ -18,7 +18,7 @@ USERS = [M.UserSpec(None), M.UserSpec("bob", "pw", home="/d", maxconn=1)]     # 
 ALPHABET = [
     "USER anonymous", "USER bob", "PASS pw", "PASS bad", "PWD", "SYST", "TYPE I", "TYPE A", "TYPE X", "TYPE",
     "PBSZ 0", "PROT P", "PROT C",
-    "CWD d", "CWD ..", "CWD g", "CWD nope", "CWD /d/../d", "CDUP",
+    "CWD d", "CWD ..", "CWD g", "CWD nope", "CWD /d/../d", "CDUP", "CWD //d", "CWD //", "MLST //d/../g", "DELE ///g",
     "MKD m", "MKD d", "MKD g/x", "MKD m/n",
     "RMD d", "RMD m", "RMD nope", "RMD g",
     "DELE g", "DELE d", "DELE nope", "DELE d/f",
